@@ -171,6 +171,43 @@ let kobs_line (g : skreg) (s : M.sketch) side : string =
     (fstr_q (M.sk_count s)) (fstr_q s.M.sk_zero) (if M.sk_is_empty s then 1 else 0)
     (mm (M.sk_min mt s)) (mm (M.sk_max mt s)) pl nl
 
+
+(* ---------- reference decoder cross-checks (C07): implementation bytes read by the documentation-only decoder ---------- *)
+let bins_line (b : (M.z * M.w) list) = bins_str b
+let ref_check_store (bytes : string) (neg : bool) (s : M.store) : string =
+  match M.ref_decode (bytes_of_string bytes) with
+  | None -> " REF-DECODE-FAILS"
+  | Some c ->
+    let got = if neg then c.M.c_neg else c.M.c_pos and other = if neg then c.M.c_pos else c.M.c_neg in
+    if bins_line got = bins_line (M.st_abs s) && other = [] then "" else " REF-DECODE-DIFFERS store[" ^ bins_line got ^ "]"
+let ref_check_sketch (bytes : string) (omit : bool) (s : M.sketch) : string =
+  match M.ref_decode (bytes_of_string bytes) with
+  | None -> " REF-DECODE-FAILS"
+  | Some c ->
+    let pb = ref [] in
+    if bins_line c.M.c_pos <> bins_line (M.st_abs s.M.sk_pos) then pb := "pos" :: !pb;
+    if bins_line c.M.c_neg <> bins_line (M.st_abs s.M.sk_neg) then pb := "neg" :: !pb;
+    if fstr_q c.M.c_zero <> fstr_q s.M.sk_zero then pb := "zero" :: !pb;
+    (match c.M.c_map, omit with
+     | None, true -> ()
+     | Some ((k, g), o), false ->
+       if not (Z.equal (to_zn k) (to_zn s.M.sk_map.M.mk_kind) && xstr g = xstr s.M.sk_map.M.mk_gamma && xstr o = xstr s.M.sk_map.M.mk_off) then pb := "mapping" :: !pb
+     | _ -> pb := "mapping-presence" :: !pb);
+    (match s.M.sk_stats with
+     | None -> if c.M.c_count <> [] || c.M.c_sum <> [] || c.M.c_min <> [] || c.M.c_max <> [] then pb := "stats-presence" :: !pb
+     | Some t ->
+       let one l v skip = (match l with [] -> skip | [x] -> xstr x = xstr v | _ -> false) in
+       let zero = f64_of_hex "0000000000000000" in
+       if not (one c.M.c_count (M.su_count t) (M.feq (M.su_count t) zero)) then pb := "count" :: !pb;
+       if not (one c.M.c_sum (M.su_get_sum t) (M.feq (M.su_get_sum t) zero)) then pb := "sum" :: !pb;
+       if not (one c.M.c_min (M.su_min t) (xstr (M.su_min t) = "x7ff0000000000000")) then pb := "min" :: !pb;
+       if not (one c.M.c_max (M.su_max t) (xstr (M.su_max t) = "xfff0000000000000")) then pb := "max" :: !pb);
+    if !pb = [] then "" else " REF-DECODE-DIFFERS " ^ String.concat "," !pb
+let strip_prefix (bytes : string) (rest : string list) : string =
+  match rest with
+  | [pre] -> let n = String.length (string_of_hex pre) in String.sub bytes n (String.length bytes - n)
+  | _ -> bytes
+
 let exec (toks : string list) (side : string list) (impl_result : string) : string =
   match toks with
   (* ----- stores ----- *)
@@ -212,11 +249,12 @@ let exec (toks : string list) (side : string list) (impl_result : string) : stri
        let n = int_of_string n and len = List.length l in
        Printf.sprintf "calls=%d" (if n >= 1 then min n len else len)
      | None -> "panic")
-  | "enc" :: b :: r :: pn :: _ ->
+  | "enc" :: b :: r :: pn :: rest ->
     let t = if pn = "pos" then M.ft_positive else M.ft_negative in
     let (s', _mb) = M.enc_store (get_store r) t in
     Hashtbl.replace stores r (Some s');
-    Hashtbl.replace bytesr b (side_bytes side); "ok"
+    let ib = side_bytes side in
+    Hashtbl.replace bytesr b ib; "ok" ^ ref_check_store (strip_prefix ib rest) (pn <> "pos") s'
   | ["dec"; r; b] ->
     let bs = get_bytes b in
     (match M.dec_store_all (nat_of_int (String.length bs + 1)) (get_store r) (bytes_of_string bs) with
@@ -282,10 +320,11 @@ let exec (toks : string list) (side : string list) (impl_result : string) : stri
   | ["kcopy"; k2; k] -> let (g, s) = get_sk k in Hashtbl.replace sketches k2 (new_reg g.mn g.mx (Some (M.sk_copy s))); "ok"
   | ["kclear"; k] -> let (g, s) = get_sk k in g.sk <- Some (M.sk_clear s); "ok"
   | ["kreweight"; k; w] -> let (g, s) = get_sk k in sk_result g (M.sk_reweight s (f64_of_hex w))
-  | "kenc" :: b :: k :: omit :: _ ->
+  | "kenc" :: b :: k :: omit :: rest ->
     let (g, s) = get_sk k in
     let (s', _mb) = M.xk_enc s (omit = "1") in
-    g.sk <- Some s'; Hashtbl.replace bytesr b (side_bytes side); "ok"
+    g.sk <- Some s'; let ib = side_bytes side in
+    Hashtbl.replace bytesr b ib; "ok" ^ ref_check_sketch (strip_prefix ib rest) (omit = "1") s'
   | "kdec" :: k :: b :: kind :: mp :: rest ->
     let exact = (rest = ["exact"]) in
     let m0 = if mp = "nil" then None else
@@ -349,7 +388,7 @@ let exec (toks : string list) (side : string list) (impl_result : string) : stri
      | Some t ->
        let mt = mtable_of g side in
        let mm r = match r with M.ROk v -> fstr_v v | M.RErr _ -> "-" | M.RPanic -> "panic" in
-       Printf.sprintf "count=%s sum=%s min=%s max=%s" (fstr_f t.M.su_count) (xstr (M.su_get_sum t)) (mm (M.sk_min mt s)) (mm (M.sk_max mt s)))
+       Printf.sprintf "count=%s sum=%s min=%s max=%s" (fstr_f (M.su_count t)) (xstr (M.su_get_sum t)) (mm (M.sk_min mt s)) (mm (M.sk_max mt s)))
   (* mapping constructors feed the spec table *)
   | ["mnew"; _; spec] ->
     (match side_map side with Some x -> Hashtbl.replace specs spec x | None -> ()); raise Unsupported
